@@ -160,3 +160,193 @@ Qed.
    lex_sound (class membership of token texts), lex_longest (maximal munch).
    Both are exercised by the correspondence (token streams with spans are compared on every
    unmutated document, and 1.8 M random lexemes were compared when the model was built). *)
+
+(* The note above is superseded: class membership, the fuel/unmodelled items, maximal munch and
+   re-lexing stability are proved below (proofs/LexerClass{A..G}.v, spec/LexClasses.v). *)
+From WacV Require Import LexClasses LexerClassC LexerClassD LexerClassE LexerClassF LexerClassG GrammarMono.
+
+(* ================================================================== lexer: classes, fuel, maximal munch, re-lexing *)
+
+(** The theorems below are stated for [cfg_with d base]: any deviation flags [d] over any tables
+    [base] that are, as sets of rows, the documented tables ([tables_ok]) -- in particular the lexer of
+    the implementation ([impl_cfg = cfg_with impl_flags impl_cfg]) and the documented lexer
+    ([cfg_with doc_flags doc_cfg]). The class predicates ([token_class], [rule_class], [follow_ok],
+    [unmodelled_at]) are the boolean predicates of spec/LexClasses.v, written from LANGUAGE.md. *)
+Theorem lex_tables_ok : tables_ok impl_cfg /\ tables_ok doc_cfg /\ cfg_with impl_flags impl_cfg = impl_cfg.
+Proof. split; [exact tables_ok_impl|split; [exact tables_ok_doc|reflexivity]]. Qed.
+Print Assumptions lex_tables_ok.
+
+(** [lex_token_classes]: the text of every token the lexer emits is in the class of its kind:
+    Ident: [%]? word (- word)* with lower-case words (and upper-case words under [uppercase_words]),
+    not a keyword (unless [keyword_colon]), or such an id followed by one [-] under [dangling_dash];
+    keyword and punctuation tokens: exactly the one text of the documented table; String: a double
+    quote, no double quote inside, a double quote; PackageName: id (: id)+ (@ version)?; PackagePath:
+    id (: id)+ (/ id)+ (@ version)?, version being [0-9]+ (. [0-9a-zA-Z+-]+)* . *)
+Theorem lex_token_classes d base src :
+  tables_ok base ->
+  Forall (fun it => match it with LTok t => token_class d (tk t) (ttext t) = true | _ => True end)
+         (lex (cfg_with d base) src).
+Proof. intros H. now apply lex_token_classes_proof. Qed.
+Print Assumptions lex_token_classes.
+
+(** [lex_no_fuel_item]: with the fuel [lex] gives itself the stream never contains the out-of-fuel
+    item nor the panic item ([unwrap] in [Lexer::comments]); the unmodelled item [LUnmodelled] is
+    emitted only under the flag [pkg_separator_zone] and only at a position of the source where the
+    remaining input satisfies the decidable predicate [unmodelled_at] (a package name directly followed
+    by a dangling [-]/[:], or a keyword prefix directly followed by a dangling [-]); a source outside
+    the zone [unmodelled_zone] never yields it. *)
+Theorem lex_no_fuel_item d base src :
+  tables_ok base ->
+  ~ In LFuel (lex (cfg_with d base) src) /\ ~ In LPanic (lex (cfg_with d base) src) /\
+  (forall sp, In (LUnmodelled sp) (lex (cfg_with d base) src) ->
+     pkg_separator_zone d = true /\
+     exists pre s1, src = pre ++ s1 /\ sp = {| off := byte_len pre; slen := 0 |} /\ unmodelled_at d s1 = true) /\
+  (unmodelled_zone d src = false -> forall sp, ~ In (LUnmodelled sp) (lex (cfg_with d base) src)).
+Proof. intros H. now apply lex_no_fuel_item_proof. Qed.
+Print Assumptions lex_no_fuel_item.
+
+(** The zone is exact at a token start: [scan_token] answers "unmodelled" iff the flag is set and the
+    remaining input is in the zone. (Only the "only if" half is needed above.) *)
+Theorem unmodelled_only_in_zone d base fuel s :
+  tables_ok base -> length s < fuel -> scan_token (cfg_with d base) fuel s = ScanUnmodelled ->
+  pkg_separator_zone d = true /\ unmodelled_at d s = true.
+Proof. intros H. now apply scan_token_unmodelled. Qed.
+Print Assumptions unmodelled_only_in_zone.
+
+(** [lex_sound] (full): tiling + bounds ([lex_sound_partial]) AND class membership AND no fuel / panic
+    item AND the unmodelled item only inside the zone. *)
+Theorem lex_sound d base src :
+  tables_ok base -> screen (cfg_with d base) src = None ->
+  let items := lex (cfg_with d base) src in
+  tiles 0 src items /\
+  Forall (fun it => match it with
+                    | LTok t => (off (tsp t) + slen (tsp t) <= byte_len src)%N /\ token_class d (tk t) (ttext t) = true
+                    | LFuel | LPanic => False
+                    | LUnmodelled sp => pkg_separator_zone d = true /\ unmodelled_zone d src = true
+                    | LErr _ _ => True
+                    end) items.
+Proof.
+  intros Ht Hs items. destruct (lex_sound_partial (cfg_with d base) src Hs) as [Htile Hb]. split; [exact Htile|].
+  pose proof (lex_token_classes d base src Ht) as Hc. destruct (lex_no_fuel_item d base src Ht) as (Hf & Hp & Hu & Hz).
+  apply Forall_forall. intros it Hin. rewrite Forall_forall in Hb, Hc. specialize (Hb _ Hin). specialize (Hc _ Hin).
+  destruct it as [t|e sp|sp| |].
+  - split; [exact Hb|exact Hc].
+  - exact I.
+  - split; [exact (proj1 (Hu _ Hin))|]. destruct (unmodelled_zone d src) eqn:E; [reflexivity|]. exfalso. exact (Hz eq_refl _ Hin).
+  - exact (Hp Hin).
+  - exact (Hf Hin).
+Qed.
+Print Assumptions lex_sound.
+
+(** [lex_longest] (maximal munch), part 1 -- holds for ALL flags: for every token, at the remaining
+    input [s1] where it was produced, no prefix of [s1] longer than the token's text is a lexeme of
+    any token rule (Ident, String, PackageName, PackagePath, any keyword, any punctuation). *)
+Theorem lex_longest d base src :
+  tables_ok base ->
+  Forall (fun it => match it with
+                    | LTok t => exists pre s1, src = pre ++ s1 /\ off (tsp t) = byte_len pre /\
+                                  ttext t = firstn (length (ttext t)) s1 /\
+                                  forall m k', length (ttext t) < m <= length s1 -> rule_class d k' (firstn m s1) = false
+                    | _ => True end) (lex (cfg_with d base) src).
+Proof. intros H. now apply lex_longest_proof. Qed.
+Print Assumptions lex_longest.
+
+(** [lex_longest], part 2 -- without the two artefacts of the generated automaton the emitted text IS
+    a lexeme of its own rule and an Ident token is never a keyword (keywords have priority): together
+    with part 1, every token is the longest lexeme at its position, of the highest-priority rule. *)
+Theorem lex_longest_munch d base src :
+  tables_ok base -> dangling_dash d = false -> keyword_colon d = false ->
+  Forall (fun it => match it with
+                    | LTok t => rule_class d (tk t) (ttext t) = true /\ (tk t = TIdent -> is_keyword_text (ttext t) = false)
+                    | _ => True end) (lex (cfg_with d base) src).
+Proof. intros H. now apply lex_munch_proof. Qed.
+Print Assumptions lex_longest_munch.
+
+(** ... and with them it is false of the implementation's lexer. [dangling_dash]: the Ident token
+    [foo-] is a lexeme of NO rule (the longest lexeme at that position is [foo]). *)
+Theorem lex_longest_dash_refuted :
+  exists src t, In (LTok t) (lex impl_cfg src) /\ tk t = TIdent /\
+                forallb (fun k => negb (rule_class impl_flags k (ttext t))) all_tokens = true /\
+                rule_class impl_flags TIdent (firstn 3 (ttext t)) = true.
+Proof. exact dash_refuted. Qed.
+Print Assumptions lex_longest_dash_refuted.
+
+(** [keyword_colon]: the Ident token [record] (before a colon) is a keyword: priority is violated. *)
+Theorem lex_priority_kwcolon_refuted :
+  exists src t, In (LTok t) (lex impl_cfg src) /\ tk t = TIdent /\ rule_class impl_flags TRecordKeyword (ttext t) = true.
+Proof. exact kwcolon_refuted. Qed.
+Print Assumptions lex_priority_kwcolon_refuted.
+
+(** [relex_stable]: if [scan_token] produced kind [k] and length [n] at some remaining input [s] (any
+    position of any source), then on the token's text followed by ANY [rest] that satisfies the follow
+    condition of the class ([follow_ok]: one or two characters of lookahead; no condition at all for
+    strings) it produces the same kind and length. *)
+Theorem relex_stable d base fuel s k n fuel' rest :
+  tables_ok base -> length s < fuel -> scan_token (cfg_with d base) fuel s = ScanTok k n ->
+  follow_ok d k (firstn n s) rest = true -> length (firstn n s ++ rest) < fuel' ->
+  scan_token (cfg_with d base) fuel' (firstn n s ++ rest) = ScanTok k n.
+Proof. intros H. now apply relex_stable_scan. Qed.
+Print Assumptions relex_stable.
+
+(** The same for [lex]: the text of a token of the stream, followed by such a [rest], lexes to that
+    token first (at offset 0, without doc comments). *)
+Theorem relex_stable_lex d base src t rest :
+  tables_ok base -> In (LTok t) (lex (cfg_with d base) src) ->
+  follow_ok d (tk t) (ttext t) rest = true -> at_token (ttext t ++ rest) = true ->
+  screen (cfg_with d base) (ttext t ++ rest) = None ->
+  exists tl, lex (cfg_with d base) (ttext t ++ rest) =
+             LTok {| tk := tk t; tsp := {| off := 0; slen := byte_len (ttext t) |}; ttext := ttext t; tdocs := [] |} :: tl.
+Proof. intros H. now apply relex_lex_proof. Qed.
+Print Assumptions relex_stable_lex.
+
+(* ================================================================== grammar: outside the deviations *)
+
+(** Every deviation flag only ADDS productions ([flags_le]: flag-wise implication on the nine flags
+    that guard productions). *)
+Theorem grammar_monotone d1 d2 ts r doc : flags_le d1 d2 -> g_document d1 ts r doc -> g_document d2 ts r doc.
+Proof. intros H. now apply (g_document_mono d1 d2 H). Qed.
+Print Assumptions grammar_monotone.
+
+(** [impl_vs_doc_agree_outside_deviations]: a token stream that is derivable without using any
+    deviation ([core_flags]: all flags off, the productions LANGUAGE.md and the parser share) is
+    derivable in G_doc and in G_impl, each derives exactly one tree from it, and it is the same tree. *)
+Theorem impl_vs_doc_agree_outside_deviations ts doc :
+  g_document core_flags ts [] doc ->
+  g_document doc_flags ts [] doc /\ g_document impl_flags ts [] doc /\
+  (forall doc', g_document doc_flags ts [] doc' -> doc' = doc) /\
+  (forall doc', g_document impl_flags ts [] doc' -> doc' = doc).
+Proof. apply agree_outside_deviations. Qed.
+Print Assumptions impl_vs_doc_agree_outside_deviations.
+
+(** Non-vacuity of the lexer theorems: on the document [w_common] (and on texts from the known-findings
+    witnesses) the lexer emits more than ten tokens, none of them an error, and for EVERY token the follow
+    condition of [relex_stable] holds of the text that actually follows it in the source -- under the
+    implementation's flags and under the documented ones. *)
+Definition follow_all (d : deviations) (cfg : lexcfg) (src : str) : bool :=
+  forallb (fun it => match it with
+                     | LTok t => follow_ok d (tk t) (ttext t) (skipn (N.to_nat (off (tsp t) + slen (tsp t))) src)
+                     | _ => false end) (lex cfg src).
+Example relex_hypotheses_hold :
+  follow_all impl_flags impl_cfg w_common = true /\ follow_all doc_flags (cfg_with doc_flags doc_cfg) w_common = true /\
+  follow_all impl_flags impl_cfg w_dangling_dash = true /\ follow_all impl_flags impl_cfg w_keyword_colon = true /\
+  follow_all impl_flags impl_cfg w_uppercase_words = true /\
+  (10 <? length (lex impl_cfg w_common))%nat = true.
+Proof. vm_compute. repeat split. Qed.
+
+(** The zone is exact: at a position where a token starts, the lexer answers "unmodelled" if and only
+    if the flag is set and the remaining input satisfies [unmodelled_at]. *)
+From WacV Require Import LexerClassH.
+Theorem unmodelled_zone_exact d base fuel s :
+  tables_ok base -> length s < fuel ->
+  (scan_token (cfg_with d base) fuel s = ScanUnmodelled <-> pkg_separator_zone d = true /\ unmodelled_at d s = true).
+Proof. intros H. now apply scan_token_unmodelled_iff. Qed.
+Print Assumptions unmodelled_zone_exact.
+
+(* Stated, not proved: the SOURCE-level form of [impl_vs_doc_agree_outside_deviations] -- if every token of
+   [lex (cfg_with impl_flags impl_cfg) src] is in its class under [core_flags] (no upper-case word, no dangling
+   dash, no keyword used as identifier) and the stream contains no [LUnmodelled], then
+   [lex (cfg_with doc_flags doc_cfg) src] is the same stream (hence, with the theorem above, both parsers
+   return the same tree). The ingredients are here ([lex_longest] and [lex_token_classes] for both
+   configurations give: same longest lexeme at every position); what is missing is the monotonicity of the
+   classes in the lexical flags and the pairwise disjointness of the rule classes (to conclude "same kind").
+   [lex_sound_partial] above is kept as first stated; [lex_sound] is its full form. *)
